@@ -863,3 +863,103 @@ def gen_nested_module_calls(rng):
         obs.append(rng.choice(["(with-handler (lambda (e) %s) (car '()))", "%s",
                                "(with-handler (lambda (e) 'err) %s)"]) % outer)
     return {"module": "\n".join(lines) + "\n" + "\n".join("(displayln %s)" % o for o in obs) + "\n"}
+
+
+# ---------------------------------------------------------------------------------------------------------
+# Self tail calls (and ordinary applications) whose operands are conditionals / and / or / not / cond over the
+# OTHER parameters, after operands that are still pending: what the native tier's late materialisation of
+# operands (the shadow stack of jit2/cgen.rs) has to get right at a join.  The model (lean C02/JitShadow.lean)
+# says where to look: a branch that spills or materialises pending operands while the other does not, a moving
+# read of a parameter that an earlier operand still refers to, a set! of such a parameter.  Branch expressions
+# are drawn independently from {constant, parameter, inline arithmetic, call of a user procedure}, so all four
+# spill combinations of a two-way branch occur; tests are constants, parameters and comparisons.
+
+def gen_tailcall_operand_conditionals(rng):
+    np_ = rng.randint(2, 4)
+    ps = ["p%d" % k for k in range(np_)]
+    bound = rng.randint(3, 6)
+
+    def atom():
+        return rng.choice(ps + ["i", str(rng.randint(-3, 9)), "#t", "#f"][: len(ps) + 2]) if rng.random() < 0.8 else rng.choice(["#t", "#f"])
+
+    def num(d=0):
+        r = rng.random()
+        if d > 1 or r < 0.35:
+            return rng.choice(ps + ["i", str(rng.randint(-3, 9))])
+        if r < 0.6:
+            return "(%s %s %s)" % (rng.choice(["+", "-", "*"]), num(d + 1), rng.choice(["1", "2", "0", rng.choice(ps)]))
+        if r < 0.8:
+            return "(h %s)" % num(d + 1)                       # a call: spills what is pending
+        return "(remainder %s 7)" % num(d + 1)
+
+    def test(d=0):
+        r = rng.random()
+        if r < 0.15:
+            return rng.choice(["#t", "#f", "(< 1 2)", "(> 1 2)"])
+        if r < 0.6 or d > 1:
+            return "(%s %s %s)" % (rng.choice(["<", "=", ">", "<="]), rng.choice(ps + ["i"]), rng.choice(["0", "1", "2", "3", rng.choice(ps)]))
+        if r < 0.75:
+            return "(not %s)" % test(d + 1)
+        if r < 0.9:
+            return "(%s %s %s)" % (rng.choice(["and", "or"]), test(d + 1), test(d + 1))
+        return "(ok? %s)" % num(1)                            # a call in the test
+
+    def branchy(d=0):
+        r = rng.random()
+        if r < 0.45:
+            return "(if %s %s %s)" % (test(), side(d), side(d))
+        if r < 0.6:
+            return "(cond (%s %s) (%s %s) (else %s))" % (test(), side(d), test(), side(d), side(d))
+        if r < 0.75:
+            return "(if (and %s (not %s)) %s %s)" % (test(), test(), side(d), side(d))
+        if r < 0.85:
+            return "(if (%s %s %s) 1 0)" % (rng.choice(["and", "or"]), test(), test())
+        if r < 0.93:
+            return "(when %s %s)" % (test(), side(d)) if rng.random() < 0.3 else "(if (not %s) %s %s)" % (test(), side(d), side(d))
+        return "(let ((t %s)) (if %s t %s))" % (num(1), test(), side(d))
+
+    def side(d):
+        r = rng.random()
+        if d < 1 and r < 0.15:
+            return branchy(d + 1)
+        if r < 0.45:
+            return rng.choice(ps + ["i", str(rng.randint(-3, 9))])         # nothing spilled, maybe a moving read
+        if r < 0.7:
+            return num(1)
+        if r < 0.9:
+            return "(h %s)" % rng.choice(ps + ["i", "1"])
+        return "(begin (set! %s %s) %s)" % (rng.choice(ps), num(1), rng.choice(ps))
+
+    def operand(k):
+        r = rng.random()
+        if k == 0 or r < 0.35:
+            return rng.choice([ps[k % np_], num(), num()])
+        return branchy()
+
+    ops = [operand(k) for k in range(np_)]
+    if not any(o.startswith("(if") or o.startswith("(cond") or o.startswith("(when") or o.startswith("(let") for o in ops):
+        ops[-1] = branchy()
+    lines = ["(define (h x) x)", "(define (ok? x) (< x 4))"]
+    shape = rng.random()
+    if shape < 0.6:
+        # the self tail call
+        lines.append("(define (lp i %s) (if (>= i %d) (list %s) (lp (+ i 1) %s)))" % (" ".join(ps), bound, " ".join(ps), " ".join(ops)))
+        entry = "lp"
+    elif shape < 0.8:
+        # a named let inside a wrapper
+        lines.append("(define (lp i0 %s) (let loop ((i i0) %s) (if (>= i %d) (list %s) (loop (+ i 1) %s))))" % (
+            " ".join("q%d" % k for k in range(np_)), " ".join("(%s q%d)" % (p, k) for k, p in enumerate(ps)), bound, " ".join(ps), " ".join(ops)))
+        entry = "lp"
+    else:
+        # an ordinary application (no loop): the operands of list / of a user procedure
+        lines.append("(define (g . xs) xs)")
+        lines.append("(define (lp i %s) (%s %s))" % (" ".join(ps), rng.choice(["list", "g", "+" if rng.random() < 0.3 else "list"]), " ".join(ops)))
+        entry = "lp"
+    calls = []
+    for _ in range(rng.randint(3, 5)):
+        calls.append("(%s 0 %s)" % (entry, " ".join(str(rng.choice([0, 1, 2, 5, -1, 36, 37])) for _ in ps)))
+    obs = ["(with-handler (lambda (e) 'err) %s)" % c for c in calls]
+    defs = "\n".join(lines)
+    return {"pieces": [defs, "(list %s)" % " ".join(obs)],
+            "module": defs + "\n" + "\n".join("(displayln %s)" % o for o in obs) + "\n",
+            "features": ["tailcall-operand-conditionals"]}
